@@ -251,16 +251,14 @@ func decOracle(line, out string) string {
 		if out != "err" {
 			return "parsing answers with the number or with an error and leaves the decimal untouched on error"
 		}
-		// rejected: must not be a plain numeral that fits
+		// rejected: must not be a plain numeral that is representable at this scale and fits the precision.
+		// A fraction longer than the scale may be rejected only if a non-zero digit lies beyond the
+		// scale (value*10^s is not an integer); if only zeros lie beyond it the number is representable.
 		t := strings.Trim(text, " ")
 		if decStrictRe.MatchString(t) {
-			fracLen := 0
-			if k := strings.IndexByte(t, '.'); k >= 0 {
-				fracLen = len(t) - k - 1
-			}
 			r, _ := value(t)
-			if fracLen <= s && r.IsInt() && new(big.Int).Abs(r.Num()).Cmp(max) < 0 {
-				return "a numeral with no more fractional digits than the scale that fits the precision parses to exactly that number"
+			if r.IsInt() && new(big.Int).Abs(r.Num()).Cmp(max) < 0 {
+				return "a numeral that is representable at the scale (no non-zero digit beyond it) and fits the precision parses to exactly that number"
 			}
 		}
 		return ""
@@ -460,7 +458,7 @@ func decGen(tier string, rng *rand.Rand, emit func(Case)) {
 	mal := []string{"", ".", "..", "+", "-", "+.", "-.", " ", "  ", "\u00a0", "1.2.3", "1..2", ".1.", "1.2.", "--1", "+-1", "-+1", "1-", "1+",
 		"1.-2", "1.+2", "-1.-2", "1. 2", "1 .2", "1 2", "- 1", "1_0", "1_0.0", "1e5", "1E5", "1.0e1", "0x10", "0b1", "0o7", "1/2", "Inf", "NaN", "nil",
 		"<nil>", "\u0967", "\uff11", "1,5", "1.5f", "\u0660", "\u22121", "1\x00", "\x001", "1\u200b", "\u200b1", "\ufeff1", "0", "-0", "+0", "0.0", "-0.0", "00", "00.00",
-		"0.", ".0", "-.0", "+0.", "5.", ".5", "+5", "+.5", "-.5", "-5.", "0.5", "0.50", "0.500", "0.05", "000.5", "1.0", "10", "9", "99999", "100000",
+		"0.", ".0", "-.0", "+0.", "5.", ".5", "+5", "+.5", "-.5", "-5.", "0.5", "0.50", "0.500", "0.05", ".00", "-.0", "+.0", "0.000", "5.000", "1.2300", "1.2301", "1.230", "1.231", "0.0000000000000000000000000000000000000000", "5.0", "123.0", "000.5", "1.0", "10", "9", "99999", "100000",
 		"99999.9", "999.99", "999.999", "999.990", "1000.0", "1000", "0999.99", "-999.99", "-1000"}
 	for _, m := range mal {
 		for _, ps := range [][2]int{{5, 2}, {1, 0}, {1, 1}, {3, 0}, {38, 38}, {38, 0}, {0, 0}} {
@@ -513,9 +511,6 @@ func init() {
 		Oracle: decOracle,
 		FindingKey: func(line, out, clause string) string {
 			f := strings.Fields(line)
-			if len(f) >= 4 && f[1] == "rt" && f[3] == "0" && out == "err" {
-				return "roundtrip-scale0"
-			}
 			if len(f) >= 2 {
 				return f[1] + ":" + clause
 			}
@@ -525,12 +520,12 @@ func init() {
 			return out != "bad-op" && out != "err-new" && !strings.HasPrefix(line, "dec new")
 		},
 		NoShrink: true,
-		Rule: "sanity: all (p,s) in -3..42 squared plus far values; format and round trip: every accepted pair 0<=s<=p<=38 x {0, +-1, +-10^k, +-(10^k-1) for k=0..p (10^p is the first value outside the precision)} plus random values below 10^p; String() on values with more digits than the precision and with Scale > Precision set through the exported fields (panic expected); parse: random numerals built for a random pair (sign -,+ or none; integer part fitting p-s, one digit too long or much too long, with leading zeros; fraction mostly <= s digits, sometimes longer, with trailing zeros; optional point; leading/trailing ASCII and Unicode white space), a quarter of them mutated by inserting/replacing garbage (letters, second point, signs, inner spaces, non-ASCII digits, near-space runes); a fixed malformed list x 7 pairs; every Unicode space and 18 near-space runes around and inside 1.5; digit strings of 37..5000 characters; all strings over {0,1,5,.,-,+,space} up to length 4 (quick) / 6 (thorough). Non-trivial = every case that reaches String or SetString on a constructed decimal (everything except the sanity-only and rejected-construction lines).",
+		Rule: "sanity: all (p,s) in -3..42 squared plus far values; format and round trip: every accepted pair 0<=s<=p<=38 x {0, +-1, +-10^k, +-(10^k-1) for k=0..p (10^p is the first value outside the precision)} plus random values below 10^p; String() on values with more digits than the precision and with Scale > Precision set through the exported fields (panic expected); parse: random numerals built for a random pair (sign -,+ or none; integer part fitting p-s, one digit too long or much too long, with leading zeros; fraction mostly <= s digits, sometimes longer, with trailing zeros (also beyond the scale, which must still parse); optional point; leading/trailing ASCII and Unicode white space), a quarter of them mutated by inserting/replacing garbage (letters, second point, signs, inner spaces, non-ASCII digits, near-space runes); a fixed malformed list x 7 pairs; every Unicode space and 18 near-space runes around and inside 1.5; digit strings of 37..5000 characters; all strings over {0,1,5,.,-,+,space} up to length 4 (quick) / 6 (thorough). Non-trivial = every case that reaches String or SetString on a constructed decimal (everything except the sanity-only and rejected-construction lines).",
 		Assumptions: []string{
 			"text arguments are valid UTF-8 (Go runes = Lean Char); invalid UTF-8 is answered bad-op on both sides and is not generated",
 			"Go standard library behaviour restated in the model (strings.TrimSpace/Split/Trim/TrimLeft/TrimRight, big.Int.SetString base 10, big.Int %0Ns formatting, string slicing) is tied to the real functions by this correspondence run only",
 			"the unscaled value is installed through SetBytes+Negate, so String() is exercised for every integer, not only for those SetString can produce",
-			"oracle: where the property text is silent (a leading +, no digit on one side of the point, Unicode white space other than the ASCII space, fractions longer than the scale that only add zeros, precision 0) either the exact value or an error is accepted, never a different value",
+			"oracle: a plain numeral -?digits(.digits)? surrounded by ASCII spaces must parse to the exact value whenever value*10^scale is an integer below 10^precision (zeros beyond the scale are representable), and any accepted input must be a numeral with exactly the answered value; where the property text is silent (a leading +, no digit on one side of the point, Unicode white space other than the ASCII space, precision 0) either the exact value or an error is accepted, never a different value",
 		},
 	})
 }
